@@ -4,7 +4,16 @@
 (* action sequence leading to it, which is then replayed on the real code.  *)
 EXTENDS SimStore
 
-SimView == <<vars, crashes, nalt, scans, nscans>>
+\* the only thing about the history that a goal asks: was table t altered
+\* before the last start and not since (its newest file then carries a field
+\* list that differs from the one the process was started with)
+AlteredWhileDown(t) ==
+  LET starts == {j \in DOMAIN hist : hist[j].a = "Start"}
+  IN IF starts = {} THEN FALSE
+     ELSE LET last == CHOOSE j \in starts : \A k \in starts : k <= j
+          IN /\ \E i \in 1..last : hist[i].a = "AlterFields" /\ hist[i].t = t
+             /\ \A i \in last..Len(hist) : hist[i].a # "AlterFields" \/ hist[i].t # t
+SimView == <<vars, crashes, nalt, scans, nscans, [t \in Tables |-> AlteredWhileDown(t)]>>
 
 Cex(name, ok) == ok \/ (PrintT(<<"ZVCEX", ToJson(hist)>>) /\ FALSE)
 Cex_ExactlyOnce    == Cex("ExactlyOnce", ExactlyOnce)
@@ -12,4 +21,66 @@ Cex_AtMostOnce     == Cex("AtMostOnce", AtMostOnce)
 Cex_MemLockStep    == Cex("MemLockStep", MemLockStep)
 Cex_DiskLockStep   == Cex("DiskLockStep", DiskLockStep)
 Cex_OffsetsOrdered == Cex("OffsetsOrdered", OffsetsOrdered)
+
+----------------------------------------------------------------------------
+(* Coverage goals: situations of the protocol that the replay must reach on  *)
+(* the real code.  For each goal TLC's breadth-first search returns the      *)
+(* shortest behaviour reaching it (as the "counterexample" of its negation); *)
+(* the harness replays it and then lets the system settle.                   *)
+NewestOff(t) == IF Newest(t) = 0 THEN 0 ELSE disk[t][Newest(t)].off
+Goal(name) ==
+  CASE name = "StaleOffsetFile" ->   \* restart with an offset file older than the newest file
+         \E t \in Tables : ~up /\ offFile[t] > 0 /\ Newest(t) # 0 /\ NewestOff(t) > offFile[t]
+    [] name = "OffsetFileAhead" ->   \* restart with an offset file newer than the newest file
+         \E t \in Tables : ~up /\ Newest(t) # 0 /\ offFile[t] > NewestOff(t)
+    [] name = "OffsetFileOnly" ->
+         \E t \in Tables : ~up /\ Newest(t) = 0 /\ offFile[t] > 0 /\ Len(wal) > offFile[t]
+    [] name = "CrashTempWritten" ->
+         \E t \in Tables : ~up /\ fl[t].pc = "temp" /\ Newest(t) # 0
+    [] name = "CrashRenamedNotSwapped" ->
+         \E t \in Tables : ~up /\ fl[t].pc = "renamed" /\ Cardinality(DOMAIN disk[t]) >= 2
+    [] name = "CrashInFlight" ->
+         \E t \in Tables : ~up /\ pend[t] # <<>> /\ Newest(t) # 0
+    [] name = "CrashMemOverFile" ->
+         \E t \in Tables : ~up /\ Newest(t) # 0 /\ mem[t].cells # EmptyBag /\ mem[t].off > NewestOff(t)
+    [] name = "SecondCrash" ->
+         crashes = 2 /\ ~up /\ \E t \in Tables : Newest(t) # 0 /\ rd[t] > NewestOff(t)
+    [] name = "CleanCloseReopen" ->
+         crashes >= 1 /\ ~up /\ \A t \in Tables : mem[t].cells = EmptyBag /\ Len(hist) > 0 /\ hist[Len(hist)].a = "Close"
+                      /\ \E u \in Tables : Newest(u) # 0
+    [] name = "RawFlushOldLayout" ->  \* C15: a raw-eligible flush over a file written with another field list
+         \E t \in Tables : /\ up /\ fl[t].pc = "begun" /\ ~fl[t].noRaw /\ cur[t] # 0
+                            /\ disk[t][cur[t]].flds # mem[t].flds
+                            /\ KeysOf(FileCells(t)) \ KeysOf(mem[t].cells) # {}
+    [] name = "RawFlushOldLayoutAfterRestart" ->
+         \* the table was altered while its data was on disk, the process restarted
+         \* with the new schema, and now an ordinary flush runs over the old file
+         \E t \in Tables : /\ up /\ crashes >= 1 /\ fl[t].pc = "begun" /\ ~fl[t].noRaw /\ cur[t] # 0
+                            /\ disk[t][cur[t]].flds # mem[t].flds
+                            /\ KeysOf(FileCells(t)) \ KeysOf(mem[t].cells) # {}
+                            /\ AlteredWhileDown(t)
+    [] name = "AlterWithDataInMemory" ->
+         \E t \in Tables : up /\ fl[t].pc = "pre" /\ cur[t] # 0
+    [] name = "TruncatingFlushOverExpired" ->  \* C14
+         \E t \in Tables : /\ up /\ fl[t].pc = "begun" /\ fl[t].noRaw
+                            /\ \E e \in DOMAIN FileCells(t) : ~Live(t, e[2], clock)
+    [] name = "RawFlushOverExpired" ->
+         \E t \in Tables : /\ up /\ fl[t].pc = "begun" /\ ~fl[t].noRaw
+                            /\ \E e \in DOMAIN FileCells(t) : ~Live(t, e[2], clock) /\ e[1] \notin KeysOf(mem[t].cells)
+    [] name = "MergeExpiredWithLive" ->
+         \E t \in Tables : /\ up /\ fl[t].pc = "begun"
+                            /\ \E e \in DOMAIN FileCells(t) : ~Live(t, e[2], clock) /\ e[1] \in KeysOf(mem[t].cells)
+    [] name = "LatePointInsideFlushedSeries" ->   \* C03: memstore period strictly inside the file row's range
+         \E t \in Tables : /\ up /\ fl[t].pc = "begun"
+                            /\ \E m \in DOMAIN mem[t].cells :
+                                 /\ \E f \in DOMAIN FileCells(t) : f[1] = m[1] /\ f[2] < m[2]
+                                 /\ \E f \in DOMAIN FileCells(t) : f[1] = m[1] /\ f[2] > m[2]
+    [] name = "FlushedPointInsideMemSeries" ->
+         \E t \in Tables : /\ up /\ fl[t].pc = "begun"
+                            /\ \E f \in DOMAIN FileCells(t) :
+                                 /\ \E m \in DOMAIN mem[t].cells : f[1] = m[1] /\ m[2] < f[2]
+                                 /\ \E m \in DOMAIN mem[t].cells : f[1] = m[1] /\ m[2] > f[2]
+
+CONSTANT GoalName
+Cex_Goal == Cex("goal", ~Goal(GoalName))
 =============================================================================
